@@ -855,9 +855,9 @@ fn finish_cont(ctx: Ctx, c: u8, rc: Rc<Cont>, into_inner: Option<u8>) {
             return;
         }
     };
-    if let Some(h) = into_inner {
-        op_drop_handle(ctx, h);
-    }
+    // (No operation of its own may come between taking the container out of the table and the
+    // call that ends it: at a quiescent instant in between nobody would be seen to own its value.
+    // The handle slot that receives the result is emptied afterwards, inside the same operation.)
     // the container has moved out of the table: remember where its storage lives now
     let (st_addr, st_kind) = (storage_addr_of(&cont), w(|w| w.conts[c as usize].kind));
     let me_tid = rt::current();
@@ -876,7 +876,10 @@ fn finish_cont(ctx: Ctx, c: u8, rc: Rc<Cont>, into_inner: Option<u8>) {
             if let Some(hv) = res {
                 let ret = (hv.uid(), hv.addr());
                 rec_end(ctx, r, c, CallKind::IntoInner, (0, 0), 0, ret, true);
-                w(|w| w.handles[hslot(ctx, h)] = Some(hv));
+                let old = w(|w| w.handles[hslot(ctx, h)].replace(hv));
+                if let Some(old) = old {
+                    let _ = guarded("drop(handle)", move || drop(old));
+                }
             }
         }
         None => {
@@ -1062,6 +1065,7 @@ pub fn exec_op(ctx: Ctx, op: &Op) {
         Op::ArmDropPanic { h } => op_arm_panic(ctx, *h),
         Op::ArmStored { c } => op_arm_stored(ctx, *c),
         Op::ArmProjPanic { k } => crate::extras::op_arm_proj_panic(*k),
+        Op::StdArc { variant } => crate::extras::op_std_arc(ctx, *variant),
         Op::Spawn { t } => op_spawn(ctx, *t),
         Op::Join { t } => op_join(ctx, *t),
         Op::TlsOp { ops } => op_tls(ctx, ops),
@@ -1381,7 +1385,9 @@ fn final_cleanup(ctx: Ctx, order: u8) {
                         w.conts[c].c.take()
                     });
                     if let Some(rc) = rc {
-                        finish_cont(ctx, c as u8, rc, None);
+                        // half of the containers end by being consumed (into_inner), half by Drop
+                        let consume = ((order >> 2) as usize + c) % 2 == 1;
+                        finish_cont(ctx, c as u8, rc, if consume { Some(3) } else { None });
                     }
                     if rt::is_aborting() {
                         return;
@@ -1389,6 +1395,18 @@ fn final_cleanup(ctx: Ctx, order: u8) {
                 }
             }
             _ => {}
+        }
+    }
+    // what into_inner handed out (and anything else that is left)
+    for i in 0..w(|w| w.handles.len()) {
+        let hv = w(|w| w.handles[i].take());
+        if let Some(hv) = hv {
+            rt::op_begin(OP_HANDLE);
+            let _ = guarded("drop(handle)", move || drop(hv));
+            rt::op_end();
+        }
+        if rt::is_aborting() {
+            return;
         }
     }
     run_ledger("final");
